@@ -116,6 +116,8 @@ fn opts_for(prop: &str, variant: &str, rng: &mut Rng, tier: Tier) -> WsOpts {
         }
         "C14" => {
             o.import_cycles = rng.chance(400);
+            o.stdlib_named_helpers = true;
+            o.import_plain_names = true;
         }
         _ => {}
     }
